@@ -94,152 +94,78 @@ def run(ctx, report: Report) -> None:
     if n_parent_sites < 2:
         raise AnalysisError('fewer than two parent -> match_selectors flows found (anchor vanished)')
 
-    # ---- R2 + R6: attribute operator patterns ------------------------------------------------------------
+    # ---- R2 + R6: attribute operator patterns (extracted by partial evaluation of parse_attribute_selector) ----------
     r2 = report.rule('C01-R2', 'an empty operand of ^= $= *= ~= designates nothing', floor=4)
     r6 = report.rule('C01-R6', 'attribute operator patterns equal the operator definitions (as languages)', floor=30)
-    _, pfn = src.func('css_parser.CSSParser.parse_attribute_selector')
-    op_var = None
-    for st in walk_no_nested(pfn):
-        if isinstance(st, ast.Assign) and isinstance(st.targets[0], ast.Name) and "group('cmp')" in unparse(st.value):
-            op_var = st.targets[0].id
-    if op_var is None:
-        raise AnalysisError("parse_attribute_selector: operator variable (m.group('cmp')) not found")
-    # branch -> operator character
-    branches = {}       # op char -> (If node or 'else', list of compile calls)
-    chain = None
-    for n in walk_no_nested(pfn):
-        if isinstance(n, ast.If) and unparse(n.test) == f'not {op_var}':
-            chain = n
-    if chain is None:
-        raise AnalysisError('parse_attribute_selector: operator if/elif chain not found')
-    node = chain
-    while True:
-        t = node.test
-        ch = None
-        if isinstance(t, ast.Call) and call_name(t) == f'{op_var}.startswith' and t.args and isinstance(t.args[0], ast.Constant):
-            ch = t.args[0].value
-        compiles = [c for st in node.body for c in ast.walk(st) if isinstance(c, ast.Call) and call_name(c) == 're.compile']
-        if ch:
-            branches[ch] = (node, compiles, node.body)
-        if len(node.orelse) == 1 and isinstance(node.orelse[0], ast.If):
-            node = node.orelse[0]
-        else:
-            compiles = [c for st in node.orelse for c in ast.walk(st) if isinstance(c, ast.Call) and call_name(c) == 're.compile']
-            branches['='] = (node, compiles, node.orelse)
-            break
-    if set(branches) != {'^', '$', '*', '~', '|', '='}:
-        raise AnalysisError(f'parse_attribute_selector: operator branches {sorted(branches)} (expected ^ $ * ~ | =)')
-    # flags variants of the function
-    from .c07 import flag_variants
-    tpl = [r for r in inv.regexes if r.kind == 'template' and r.func == 'CSSParser.parse_attribute_selector']
-    if not tpl:
-        raise AnalysisError('no attribute pattern templates in the inventory')
-    flags_all = sorted(set(flag_variants(ctx, tpl[0])) | {0 | re.DOTALL})
-    # `re.compile(pattern.pattern)` (the XML `type` twin) drops the flags argument entirely
-    derived = [r for r in inv.regexes if r.kind == 'derived' and r.func == 'CSSParser.parse_attribute_selector']
-
-    def hole_alternatives(call, body):
-        """[(selected_when_value_empty: bool|None, piece)] for the `%s` hole of one compile call."""
-        a0 = call.args[0]
-        if not (isinstance(a0, ast.BinOp) and isinstance(a0.op, ast.Mod)):
-            raise AnalysisError(f'{pmod.where(call)}: attribute pattern is not a `%` template')
-        fmt = inv.folder.try_ev('css_parser', a0.left, default=None)
-        hole = a0.right
-        if isinstance(hole, ast.Name):
-            defs = [st.value for st in body if isinstance(st, ast.Assign) and isinstance(st.targets[0], ast.Name)
-                    and st.targets[0].id == hole.id]
-            if len(defs) != 1:
-                raise AnalysisError(f'{pmod.where(call)}: hole variable {hole.id} not defined once in the branch')
-            hole = defs[0]
-        alts = []
-
-        def walk(e, cond_when_empty):
-            if isinstance(e, ast.IfExp):
-                # which branch is selected when the value is the empty string?
-                env = BoolEnv(frozenset({'var:value': False, 'value': False}.items()))
-                v = env.ev(e.test)
-                walk(e.body, (v is True) if cond_when_empty is not False else False)
-                walk(e.orelse, (v is False) if cond_when_empty is not False else False)
-                return
-            val = inv.folder.try_ev('css_parser', e, default=None)
-            if not isinstance(val, (str, Opaque)):
-                raise AnalysisError(f'{pmod.where(call)}: hole alternative {unparse(e)} is neither literal text nor re.escape(...)')
-            alts.append((cond_when_empty, val))
-        walk(hole, None)
-        return fmt, alts
-
+    from .sem import attribute_patterns
+    rows = attribute_patterns(ctx)
+    report.analysed['attribute_pattern_rows'] = len(rows)
     reported = set()
-    lits = ['ab', 'a', 'a-b', 'A'] + (['a b', '-', 'a\nb'] if ctx.tier == 'thorough' else ['a b'])
-    for ch, (node, compiles, body) in sorted(branches.items()):
-        main = [c for c in compiles if isinstance(c.args[0], ast.BinOp)]
-        if len(main) != 1:
-            raise AnalysisError(f'parse_attribute_selector: branch {ch!r} has {len(main)} template compile calls')
-        call = main[0]
-        fmt, alts = hole_alternatives(call, body)
-        a, b = fmt.split('%s')
-        # R2: what is compiled when the value is empty
-        if ch in '^$*~':
-            sel = [p for w, p in alts if w is True] if any(w is not None for w, _ in alts) else [p for _, p in alts]
-            ok = bool(sel) and all(isinstance(p, str) for p in sel)
-            witness = None
-            if ok:
-                for p in sel:
-                    for f in flags_all:
-                        s = rx.System()
-                        A = s.add('r', a + p + b, f)
-                        A.prefix_lang = True
-                        s.freeze()
-                        n, w = A.shortest()
-                        if n is not None:
-                            ok, witness = False, w
-            r2.instance({'operator': ch + '=', 'pattern_when_value_empty': [a + (p if isinstance(p, str) else '<escaped value>') + b for p in sel],
-                         'unmatchable': ok, 'witness': witness}, key=ch)
-            r2.obligation(ok)
+    seen_lang = {}
+    for row in rows:
+        op = row['op']
+        if op is None:
+            ok = row['pattern'] is None
+            r6.instance({'selector': f'[{row["attr"]}]', 'pattern': row['pattern'], 'presence_only': ok}, key=f'presence|{row["attr"]}',
+                        sample_cap=2)
             if not ok:
-                how = (f'a pattern that can match (e.g. {witness!r})' if witness is not None else
-                       'the same template as for a non-empty value, which then matches every value')
-                r2.violation(f'parse_attribute_selector {ch}= empty', pmod.where(call),
-                             f'[attr{ch}=""] compiles to {how}: an empty value given to {ch}= must designate nothing')
-        # R6: non-empty literal values
-        opaque = [p for _, p in alts if isinstance(p, Opaque)]
-        if len(opaque) != 1:
-            raise AnalysisError(f'parse_attribute_selector: branch {ch!r} has no single re.escape(...) alternative')
-        for lit in lits:
-            if ch == '~' and re.search(r'[ \t\n\r\f]', lit):
-                continue      # handled by the unmatchable alternative (R2)
-            for f in flags_all:
-                ref = op_reference(ch, lit)
-                s = rx.System()
+                r6.violation('parse_attribute_selector presence pattern', 'soupsieve/css_parser.py (parse_attribute_selector)',
+                             f'[{row["attr"]}] compiles a value pattern {row["pattern"]!r}; a bare attribute selector must only test presence')
+            continue
+        ch = op[0] if op != '=' else '='
+        if ch == '!':
+            ch = '='
+            if not row['inverse']:
+                r6.violation('parse_attribute_selector != not negated', 'soupsieve/css_parser.py (parse_attribute_selector)',
+                             '[attr!=v] is not compiled as :not([attr=v])')
+        elif row['inverse']:
+            r6.violation(f'parse_attribute_selector {op} negated', 'soupsieve/css_parser.py (parse_attribute_selector)', f'[attr{op}v] is negated')
+        pats = [(row['pattern'], row['flags'], 'pattern')]
+        if row['twin_pattern'] is not None:
+            pats.append((row['twin_pattern'], row['twin_flags'], 'case-sensitive twin'))
+        for pat, fl, which in pats:
+            if pat is None:
+                r6.violation(f'parse_attribute_selector {op} no pattern', 'soupsieve/css_parser.py (parse_attribute_selector)',
+                             f'[attr{op}"{row["value"]}"] compiles no pattern')
+                continue
+            key = (ch, row['value'], pat, fl)
+            if key not in seen_lang:
                 try:
-                    A = s.add('code', a + re.escape(lit) + b, f)
+                    sysm = rx.System()
+                    A = sysm.add('code', pat, fl)
                     A.prefix_lang = True
-                    B = s.add('ref', ref, f & re.I)
-                    s.freeze()
-                    d = rx.equivalent(A, B)
+                    empty_needed = row['value'] == '' and ch in '^$*~'
+                    ws_value = bool(re.search(r'[ \t\n\r\f]', row['value']))
+                    if empty_needed or (ch == '~' and ws_value):
+                        sysm.freeze()
+                        n, w = A.shortest()
+                        seen_lang[key] = ('empty', None if n is None else w)
+                    else:
+                        B = sysm.add('ref', op_reference(ch, row['value']) if row['value'] else {
+                            '=': '(?s)', '|': '(?s)(?:-.*)?'}[ch], fl & re.I)
+                        sysm.freeze()
+                        seen_lang[key] = ('equiv', rx.equivalent(A, B))
                 except rx.Unsupported as e:
-                    raise AnalysisError(f'attribute template {ch}=: {e}')
-                r6.instance({'operator': ch + '=', 'literal': lit, 'flags': f, 'difference': d}, key=f'{ch}|{lit}|{f}',
-                            sample_cap=4)
-                r6.obligation(d is None)
-                if d is not None and (ch, d[0]) not in reported:
-                    reported.add((ch, d[0]))
-                    side = 'the pattern matches, the operator does not' if d[0] == 'only-in-first' else 'the operator matches, the pattern does not'
-                    r6.violation(f'parse_attribute_selector {ch}= {d[0]}', pmod.where(call),
-                                 f'[attr{ch}="{lit}"] compiled with flags={f}: value {d[1]!r} - {side}')
-    for r in derived:
-        r6.note(f'{r.where}: {unparse(r.node)} recompiles a template without flags (XML type twin): covered by the flags=0|DOTALL variant only if DOTALL is kept')
-    # the XML twin must keep DOTALL: it is compiled from pattern.pattern with no flags
-    for r in derived:
-        c = r.node
-        has_flags = len(c.args) > 1 or any(k.arg == 'flags' for k in c.keywords)
-        fl = inv.folder.try_ev('css_parser', c.args[1], default=None) if len(c.args) > 1 else None
-        ok = has_flags and isinstance(fl, int) and bool(fl & re.DOTALL) and not (fl & re.I)
-        r6.instance({'xml_type_twin': unparse(c), 'keeps_DOTALL_drops_IGNORECASE': ok}, key='twin')
-        r6.obligation(ok)
-        if not ok:
-            r6.violation('parse_attribute_selector xml twin flags', pmod.where(c),
-                         f'the case-sensitive twin of the type pattern is compiled as `{unparse(c)}`: without re.DOTALL '
-                         f'"." stops at a line feed, so [type$="x"] / [type*="x"] miss multi-line values in XML documents')
+                    raise AnalysisError(f'attribute pattern {pat!r}: {e}')
+            kind, res = seen_lang[key]
+            desc = {'selector': f'[{row["attr"]}{op}"{row["value"]}"{" " + row["case"] if row["case"] else ""}]', 'which': which,
+                    'pattern': pat, 'flags': fl}
+            if kind == 'empty':
+                r2.instance({**desc, 'matches_something': res}, key=f'{ch}|{row["value"]}|{pat}|{fl}', sample_cap=4)
+                r2.obligation(res is None)
+                if res is not None and ('empty', ch, which) not in reported:
+                    reported.add(('empty', ch, which))
+                    what = 'an empty value' if row['value'] == '' else 'a value containing whitespace'
+                    r2.violation(f'parse_attribute_selector {ch}= empty', 'soupsieve/css_parser.py (parse_attribute_selector)',
+                                 f'{desc["selector"]}: the {which} {pat!r} can match (e.g. {res!r}); {what} given to {ch}= must designate nothing')
+            else:
+                r6.instance({**desc, 'difference': res}, key=f'{ch}|{row["value"]}|{pat}|{fl}', sample_cap=4)
+                r6.obligation(res is None)
+                if res is not None and (ch, res[0], which) not in reported:
+                    reported.add((ch, res[0], which))
+                    side = 'the pattern matches, the operator does not' if res[0] == 'only-in-first' else 'the operator matches, the pattern does not'
+                    r6.violation(f'parse_attribute_selector {ch}= {res[0]}', 'soupsieve/css_parser.py (parse_attribute_selector)',
+                                 f'{desc["selector"]} ({which}, flags={fl}): value {res[1]!r} - {side}')
 
     # ---- R3 --------------------------------------------------------------------------------------------
     r3 = report.rule('C01-R3', 'tokenizer, dispatch and regex-group tables agree', floor=30)
@@ -375,101 +301,16 @@ def run(ctx, report: Report) -> None:
         r4.violation('css_match.CSSMatch.match_relations routing', mmod.where(mr),
                      'match_relations no longer routes forward (":"-prefixed) combinators to match_future_relations')
 
-    # ---- R5 --------------------------------------------------------------------------------------------
-    r5 = report.rule('C01-R5', 'every IR field is consulted, conjunctively', floor=30)
-    _, ms = src.func('css_match.CSSMatch.match_selectors')
-    loops = [n for n in ast.walk(ms) if isinstance(n, ast.For)]
-    if len(loops) != 1:
-        raise AnalysisError('match_selectors: expected exactly one loop over the alternatives')
-    loop = loops[0]
-    alt = loop.target.id
-    success = None
-    guards = []
-    for st in loop.body:
-        if isinstance(st, ast.Assign) and unparse(st) == 'match = not is_not':
-            success = st
-            break
-        if isinstance(st, ast.If):
-            guards.append(st)
-    if success is None:
-        raise AnalysisError('match_selectors: success assignment `match = not is_not` not found at loop level')
-    after = loop.body[loop.body.index(success) + 1:]
-    if not (after and isinstance(after[0], ast.Break)):
-        r5.violation('match_selectors no break after success', mmod.where(success),
-                     'match_selectors: the success assignment is not followed by `break`: a later alternative can overwrite it')
-    fields_read, flags_read = set(), set()
-    for g in guards:
-        txt = unparse(g.test)
-        body_ok = len(g.body) == 1 and isinstance(g.body[0], ast.Continue) and not g.orelse
-        # the test must be falsifiable only by a failing check: <precondition> and not <check>  |  not <check> | isinstance(...)
-        t = g.test
-        conj = t.values if isinstance(t, ast.BoolOp) and isinstance(t.op, ast.And) else [t]
-        neg_calls = [c for c in conj if isinstance(c, ast.UnaryOp) and isinstance(c.op, ast.Not)
-                     and isinstance(c.operand, ast.Call) and call_name(c.operand).startswith('self.match_')]
-        is_null_guard = 'isinstance' in txt and 'SelectorNull' in txt
-        shape_ok = body_ok and (is_null_guard or (len(neg_calls) == 1 and not any(
-            isinstance(x, ast.BoolOp) and isinstance(x.op, ast.Or) for x in ast.walk(t))))
-        for x in ast.walk(t):
-            if isinstance(x, ast.Attribute) and isinstance(x.value, ast.Name) and x.value.id == alt:
-                fields_read.add(x.attr)
-            if isinstance(x, ast.Attribute) and x.attr.startswith('SEL_'):
-                flags_read.add(x.attr)
-            if isinstance(x, ast.Name) and x.id in ('RANGES', 'DIR_FLAGS'):
-                v = inv.folder.env_nodes['css_match'].get(x.id)
-                flags_read.update(a.attr for a in ast.walk(v) if isinstance(a, ast.Attribute))
-        r5.instance({'guard': txt[:90], 'conjunctive_continue_shape': shape_ok}, key=txt)
-        r5.obligation(shape_ok)
-        if not shape_ok:
-            r5.violation(f'match_selectors guard {txt[:60]}', mmod.where(g),
-                         f'match_selectors: guard `if {txt[:80]}` is not of the form `if [<precondition> and] not '
-                         f'self.match_X(...): continue` - a failed check no longer rejects the alternative (or ends the list)')
-    for st in loop.body:
-        for x in ast.walk(st):
-            if isinstance(x, (ast.Return,)) or (isinstance(x, ast.Break) and st is not after[0] if after else False):
-                r5.violation('match_selectors early exit in loop', mmod.where(x),
-                             'match_selectors: return/break inside the alternative loop before the success assignment')
-    slots = [e for e in inv.folder.ev('css_types', [st.value for st in src.cls('css_types.Selector')[1].body
-                                                    if isinstance(st, ast.Assign) and unparse(st.targets[0]) == '__slots__'][0])
-             if e != '_hash']
-    for f in slots:
-        ok = f in fields_read or f == 'rel_type'
-        r5.instance({'Selector_field': f, 'read_in_guard_chain': ok}, key='f-' + f)
-        r5.obligation(ok)
-        if not ok:
-            r5.violation(f'match_selectors field {f}', mmod.where(ms),
-                         f'match_selectors never consults Selector.{f}: that part of every compound selector is ignored')
-    # rel_type is consulted by the relation matchers
-    rt = any(isinstance(x, ast.Attribute) and x.attr == 'rel_type' for x in ast.walk(mr))
-    if not rt:
-        r5.violation('match_relations rel_type', mmod.where(mr), 'match_relations no longer reads rel_type')
-    sel_flags = [n for n in inv.folder.env_nodes['css_types'] if n.startswith('SEL_')]
-    for f in sel_flags:
-        ok = f in flags_read
-        r5.instance({'flag': f, 'tested_in_guard_chain': ok}, key='fl-' + f)
-        r5.obligation(ok)
-        if not ok:
-            r5.violation(f'match_selectors flag {f}', mmod.where(ms),
-                         f'match_selectors never tests ct.{f}: the pseudo-class that sets it has no effect')
-    # AND-folds: result variable starts True and is only ever lowered to False
-    for fname in ('match_subselectors', 'match_attributes', 'match_id', 'match_classes', 'match_contains', 'match_tag'):
-        _, f = src.func(f'css_match.CSSMatch.{fname}')
-        rets = [n for n in ast.walk(f) if isinstance(n, ast.Return) and isinstance(n.value, ast.Name)]
-        if len(rets) != 1:
-            raise AnalysisError(f'{fname}: expected a single `return <name>`')
-        rv = rets[0].value.id
-        assigns = [st for st in ast.walk(f) if isinstance(st, ast.Assign) and any(
-            isinstance(t, ast.Name) and t.id == rv for t in st.targets)]
-        vals = [inv.folder.try_ev('css_match', a.value, default='?') for a in assigns]
-        ok = bool(vals) and vals[0] is True and all(v is False for v in vals[1:])
-        r5.instance({'helper': fname, 'result_var': rv, 'assignments': [unparse(a.value) for a in assigns], 'and_fold': ok}, key=fname)
-        r5.obligation(ok)
-        if not ok:
-            r5.violation(f'css_match.CSSMatch.{fname} and-fold', mmod.where(f),
-                         f'{fname}: `{rv}` is not an AND-fold (initialised True, only ever set to False): one failing item no '
-                         f'longer makes the whole check fail')
+    # ---- R5 (decision tables by partial evaluation) ------------------------------------------------------
+    r5 = report.rule('C01-R5', 'every IR field is consulted, conjunctively (decision tables)', floor=40)
+    from .sem import helper_tables, match_selectors_table
+    match_selectors_table(ctx, r5)
+    helper_tables(ctx, r5)
+    _, mr = src.func('css_match.CSSMatch.match_relations')
 
-    r7 = report.rule('C01-R7', 'a comma resets every piece of per-alternative parser state', floor=2)
-    comma_reset_rule(ctx, r7)
+    r7 = report.rule('C01-R7', 'a comma resets every piece of per-alternative parser state (parsed token sequences)', floor=8)
+    from .sem import comma_tables
+    comma_tables(ctx, r7)
 
     # ---- R8 --------------------------------------------------------------------------------------------
     r8 = report.rule('C01-R8', 'class splitting and emptiness use the CSS whitespace set', floor=3)
